@@ -230,7 +230,7 @@ func checkC05(c C05Case) h.Outcome {
 		got := specOf(err)
 		ok := false
 		for _, e := range expectErr {
-			if e == got {
+			if specMatch(e, got) {
 				ok = true
 			}
 		}
